@@ -8,6 +8,7 @@
 package refamf
 
 import (
+	"math/big"
 	"bytes"
 	"encoding/hex"
 	"fmt"
@@ -70,6 +71,7 @@ type ue struct {
 	sess          sessState
 	psi           int
 	pti           int
+	relPTI        int
 	pendRelResp   bool
 	pendRelCompl  bool
 	ueIP, upfIP   [4]byte
@@ -123,6 +125,9 @@ func New(sc Scenario) (*AMF, error) {
 	}
 	if len(p.IMSI) <= len(p.MCC)+len(p.MNC) || len(p.IMSI) > 15 || p.IMSI[:3] != p.MCC || p.IMSI[3:3+len(p.MNC)] != p.MNC {
 		return nil, fmt.Errorf("scenario: imsi %q does not start with mcc %q mnc %q (or is longer than 15 digits)", p.IMSI, p.MCC, p.MNC)
+	}
+	if p.ServingMCC != "" && (len(p.ServingMCC) != 3 || len(p.ServingMNC) != len(p.MNC) || digits(p.ServingMCC+p.ServingMNC).Sign() < 0) {
+		return nil, fmt.Errorf("scenario: serving mcc %q mnc %q", p.ServingMCC, p.ServingMNC)
 	}
 	a.plmn = EncodePLMN(p.MCC, p.MNC)
 	kb, err := mustHex(p.K, 16, "k")
@@ -445,17 +450,35 @@ func (a *AMF) unprotect(u *ue, nas []byte, msg string, allowed ...int) (*Envelop
 	a.Counts = append(a.Counts, CountUse{UE: u.idx, Kamf: u.kamfInst, Count: want})
 	a.Obs.ProtectedUL++
 	u.ulNext = want + 1
-	if u.encAlg != 0 {
-		// null ciphering is the only algorithm the UE advertises; anything else is outside this model
-		return nil, a.viol("harness", "ciphering algorithm %d selected: not modelled", u.encAlg)
+	if u.encAlg != 0 && (e.HeaderType == 2 || e.HeaderType == 4) {
+		// the AMF selected a non-null ciphering algorithm out of what the UE announced:
+		// the message is deciphered with it (TS 33.501 6.4.4; COUNT, BEARER 1, DIRECTION uplink).
+		// A UE that announced the algorithm but does not apply it yields a message that
+		// does not decode, which the caller reports.
+		e.Plain = u.crypt(want, 0, e.Plain)
+		a.obs("deciphered with NEA%d at COUNT %d", u.encAlg, want)
 	}
 	a.obs("protected: header type %d, COUNT %d, MAC ok", e.HeaderType, want)
 	return e, nil
 }
 
+// crypt applies the selected ciphering algorithm (an involution) to a NAS message.
+func (u *ue) crypt(count uint32, dir uint32, in []byte) []byte {
+	switch u.encAlg {
+	case 1:
+		return refcrypto.EEA1(u.keys.KnasEnc, count, 1, dir, in, 8*len(in))
+	case 2:
+		return refcrypto.EEA2(u.keys.KnasEnc, count, 1, dir, in)
+	}
+	return append([]byte(nil), in...)
+}
+
 func (u *ue) protect(ht int, plain []byte) []byte {
 	if ht == 3 || ht == 4 {
 		u.dlNext = 0
+	}
+	if ht == 2 || ht == 4 {
+		plain = u.crypt(u.dlNext, 1, plain)
 	}
 	p := append([]byte{byte(u.dlNext)}, plain...)
 	var mac [4]byte
@@ -469,11 +492,14 @@ func (u *ue) protect(ht int, plain []byte) []byte {
 }
 
 func (a *AMF) snn() string {
-	mnc := a.sc.Prov.MNC
+	mcc, mnc := a.sc.Prov.MCC, a.sc.Prov.MNC
+	if a.sc.Prov.ServingMCC != "" {
+		mcc, mnc = a.sc.Prov.ServingMCC, a.sc.Prov.ServingMNC
+	}
 	if len(mnc) == 2 {
 		mnc = "0" + mnc
 	}
-	return "5G:mnc" + mnc + ".mcc" + a.sc.Prov.MCC + ".3gppnetwork.org"
+	return "5G:mnc" + mnc + ".mcc" + mcc + ".3gppnetwork.org"
 }
 
 func (a *AMF) onInitialUE(p *iewalk.PDU) ([]dlMsg, string, *Violation) {
@@ -535,6 +561,14 @@ func (a *AMF) onInitialUE(p *iewalk.PDU) ([]dlMsg, string, *Violation) {
 	return nil, what, a.viol("nas-unexpected:"+MTName(mt), "%s: this NAS message cannot start an N1 signalling connection here", what)
 }
 
+func digits(s string) *big.Int {
+	n, ok := new(big.Int).SetString(s, 10)
+	if !ok {
+		return big.NewInt(-1)
+	}
+	return n
+}
+
 func (a *AMF) onRegistrationRequest(ran uint64, plain []byte, what string) ([]dlMsg, string, *Violation) {
 	m, err := ParsePlain5GMM(plain)
 	if err != nil {
@@ -567,6 +601,12 @@ func (a *AMF) onRegistrationRequest(ran uint64, plain []byte, what string) ([]dl
 	if idx == 0 && id.MSIN != msin0 {
 		return nil, what, a.viol("suci-msin", "%s: first UE presents MSIN %s, the configured IMSI %s has MSIN %s", what, id.MSIN, pv.IMSI, msin0)
 	}
+	// the home network provisioned one subscriber per UE of the run, upwards from the configured
+	// IMSI ("initial_imsi"; CreateUE: "the UE information should have been previously stored in
+	// the core database"): any other MSIN is a subscriber this network does not know
+	if off := new(big.Int).Sub(digits(id.MSIN), digits(msin0)); off.Sign() < 0 || off.Cmp(big.NewInt(int64(len(a.sc.UEs)))) >= 0 {
+		return nil, what, a.viol("suci-msin", "%s: UE %d presents MSIN %s: not one of the %d subscribers provisioned upwards from the configured IMSI %s (MSIN %s)", what, idx, id.MSIN, len(a.sc.UEs), pv.IMSI, msin0)
+	}
 	supi := id.MCC + id.MNC + id.MSIN
 	if a.sc.Policy.DistinctSUPI {
 		for _, o := range a.ues {
@@ -581,14 +621,21 @@ func (a *AMF) onRegistrationRequest(ran uint64, plain []byte, what string) ([]dl
 	u := &ue{idx: idx, ch: a.sc.UEs[idx], ranID: ran, amfID: a.sc.UEs[idx].AMFUEID, supi: supi, state: stAuth, secCap: m.UESecCap}
 	// algorithm selection: the AMF's priority lists, restricted to what the UE advertises
 	u.intAlg = -1
-	for _, alg := range []int{2, 1} {
+	intPrio, encPrio := []int{2, 1}, []int{0, 2, 1}
+	if len(u.ch.IntPrio) > 0 {
+		intPrio = u.ch.IntPrio
+	}
+	if len(u.ch.EncPrio) > 0 {
+		encPrio = u.ch.EncPrio
+	}
+	for _, alg := range intPrio {
 		if m.UESecCap[1]&(0x80>>uint(alg)) != 0 {
 			u.intAlg = alg
 			break
 		}
 	}
 	u.encAlg = -1
-	for _, alg := range []int{0, 2, 1} {
+	for _, alg := range encPrio {
 		if m.UESecCap[0]&(0x80>>uint(alg)) != 0 {
 			u.encAlg = alg
 			break
@@ -596,9 +643,6 @@ func (a *AMF) onRegistrationRequest(ran uint64, plain []byte, what string) ([]dl
 	}
 	if u.intAlg < 0 || u.encAlg < 0 {
 		return nil, what, a.viol("no-ue-security-capability", "%s: UE security capability %x offers no algorithm this AMF supports", what, m.UESecCap)
-	}
-	if u.encAlg != 0 {
-		return nil, what, a.viol("harness", "UE security capability %x without 5G-EA0: not modelled", m.UESecCap)
 	}
 	ch := u.ch
 	rb, err1 := mustHex(ch.RAND, 16, "rand")
@@ -716,6 +760,15 @@ func (a *AMF) onUplinkNAS(p *iewalk.PDU) ([]dlMsg, string, *Violation) {
 		return nil, msg, a.viol("nas-decode", "%s: NAS message too short", msg)
 	}
 	mt := int(env0.Plain[2])
+	if u.encAlg > 0 && (env0.HeaderType == 2 || env0.HeaderType == 4) && (u.secured || u.state == stSMC) {
+		// a non-null ciphering algorithm was selected: the message type is only visible after
+		// deciphering at the COUNT the AMF expects (0 under a new security context)
+		c := u.ulNext
+		if env0.HeaderType == 4 {
+			c = 0
+		}
+		mt = int(u.crypt(c, 0, env0.Plain)[2])
+	}
 	what := fmt.Sprintf("%s/%s ue=%d", msg, MTName(mt), u.idx)
 	if u.state == stDeregistered || u.state == stDeregSent {
 		return nil, what, a.viol("prerequisite:deregistered", "%s: NAS message from a UE that has deregistered", what)
@@ -922,8 +975,11 @@ func (a *AMF) onULNASTransport(u *ue, plain []byte, what string) ([]dlMsg, strin
 	if sm.SMPSI < 1 || sm.SMPSI > 15 {
 		a.ne("psi-outside-1..15", "PDU session identity %d is outside 1..15 (TS 24.007 11.2.3.1b)", sm.SMPSI)
 	}
-	if sm.SMPTI == 0 {
-		a.ne("pti-0", "procedure transaction identity 0 (unassigned, TS 24.501 7.3.1) in %s; echoed", MTName(sm.Type))
+	// TS 24.501 7.3.1 d), e): a UE-requested 5GSM transaction (establishment, modification or release request)
+	// whose PTI is the unassigned value 0 or the reserved value 255 is answered with 5GSM STATUS #81
+	// "invalid PTI value" - the SMF does not accept the message
+	if (sm.Type == MTPDUSessionEstRequest || sm.Type == MTPDUSessionReleaseRequest) && (sm.SMPTI == 0 || sm.SMPTI == 255) {
+		return nil, what, a.viol("5gsm-pti", "%s: procedure transaction identity %d is %s (TS 24.007 11.2.3.1a): a conformant SMF answers a UE-requested transaction that carries it with 5GSM STATUS #81 \"invalid PTI value\" (TS 24.501 7.3.1)", what, sm.SMPTI, map[int]string{0: "the value \"no procedure transaction identity assigned\"", 255: "reserved"}[sm.SMPTI])
 	}
 	if m.DNN != nil && (len(m.DNN) == 0 || !labelsOK(m.DNN)) {
 		a.ne("dnn-coding", "DNN %q is not coded as length-prefixed labels", m.DNN)
@@ -1024,6 +1080,7 @@ func (a *AMF) onULNASTransport(u *ue, plain []byte, what string) ([]dlMsg, strin
 		if cause <= 0 {
 			cause = 36
 		}
+		u.relPTI = sm.SMPTI
 		rc := BuildPDUSessionReleaseCommand(u.psi, sm.SMPTI, cause)
 		dl := u.protect(2, BuildDLNASTransport(1, rc, u.psi))
 		b, err := a.buildPDUSessionResourceReleaseCommand(u, u.psi, dl)
@@ -1040,6 +1097,11 @@ func (a *AMF) onULNASTransport(u *ue, plain []byte, what string) ([]dlMsg, strin
 		}
 		if sm.SMPSI != u.psi {
 			return nil, what, a.viol("psi-inconsistent", "%s: release complete for PDU session %d, the session being released is %d", what, sm.SMPSI, u.psi)
+		}
+		// TS 24.501 7.3.1 b): the PTI of the release complete is the one of the release command,
+		// which echoed the UE's release request; anything else is answered with 5GSM STATUS #47
+		if sm.SMPTI != u.relPTI {
+			return nil, what, a.viol("5gsm-pti-mismatch", "%s: procedure transaction identity %d in the release complete, the release command carried %d (that of the UE's release request): 5GSM STATUS #47 \"PTI mismatch\" (TS 24.501 7.3.1)", what, sm.SMPTI, u.relPTI)
 		}
 		u.pendRelCompl = false
 		a.finishRelease(u)
